@@ -1,0 +1,141 @@
+//go:build verif
+
+// Machine-checked contracts for package operator (read by /verif/govc).
+// The lemma functions below are never executed; they are verified like any other function
+// (their callees' real bodies are inlined: `inline-calls`) and carry the relational laws of C07.
+
+package operator
+
+import (
+	"github.com/ysugimoto/falco/v2/interpreter/value"
+)
+
+//@ pred boolResult(r value.Value, err error) = (err == nil ==> is(r, *value.Boolean) && nonnil(ref(r)) && fresh(r)) && (err != nil ==> r == value.Null)
+//@ pred BVal(r value.Value) = r.(*value.Boolean).Value
+
+//@ func Equal [C07 C08 C13]
+//@   requires valid(left) && valid(right)
+//@   safe [C08]
+//@   assigns [C13] nothing
+//@   ensures [result C07] boolResult(result, err)
+//@   ensures [notset-string C07] is(left, *value.String) && is(right, *value.String) && err == nil && (left.(*value.String).IsNotSet || right.(*value.String).IsNotSet) ==> !BVal(result)
+//@   ensures [int C07] is(left, *value.Integer) && is(right, *value.Integer) && !left.(*value.Integer).Literal && !left.(*value.Integer).IsNAN && !right.(*value.Integer).IsNAN ==> err == nil && BVal(result) == (left.(*value.Integer).Value == right.(*value.Integer).Value)
+//@   ensures [string C07] is(left, *value.String) && is(right, *value.String) && !left.(*value.String).Literal && !left.(*value.String).IsNotSet && !right.(*value.String).IsNotSet ==> err == nil && BVal(result) == (left.(*value.String).Value == right.(*value.String).Value)
+
+//@ func NotEqual [C07 C08 C13]
+//@   requires valid(left) && valid(right)
+//@   safe [C08]
+//@   assigns [C13] nothing
+//@   ensures [result C07] err == nil ==> is(result, *value.Boolean) && nonnil(ref(result))
+
+//@ func GreaterThan [C07 C08 C13]
+//@   requires valid(left) && valid(right)
+//@   safe [C08]
+//@   assigns [C13] nothing
+//@   ensures [result C07] boolResult(result, err)
+//@   ensures [int C07] is(left, *value.Integer) && is(right, *value.Integer) && !left.(*value.Integer).Literal && !left.(*value.Integer).IsNAN && !right.(*value.Integer).IsNAN ==> err == nil && BVal(result) == (left.(*value.Integer).Value > right.(*value.Integer).Value)
+
+//@ func LessThan [C07 C08 C13]
+//@   requires valid(left) && valid(right)
+//@   safe [C08]
+//@   assigns [C13] nothing
+//@   ensures [result C07] boolResult(result, err)
+//@   ensures [int C07] is(left, *value.Integer) && is(right, *value.Integer) && !left.(*value.Integer).Literal && !left.(*value.Integer).IsNAN && !right.(*value.Integer).IsNAN ==> err == nil && BVal(result) == (left.(*value.Integer).Value < right.(*value.Integer).Value)
+
+//@ func GreaterThanEqual [C07 C08 C13]
+//@   requires valid(left) && valid(right)
+//@   safe [C08]
+//@   assigns [C13] nothing
+//@   ensures [result C07] boolResult(result, err)
+//@   ensures [int C07] is(left, *value.Integer) && is(right, *value.Integer) && !left.(*value.Integer).Literal && !left.(*value.Integer).IsNAN && !right.(*value.Integer).IsNAN ==> err == nil && BVal(result) == (left.(*value.Integer).Value >= right.(*value.Integer).Value)
+
+//@ func LessThanEqual [C07 C08 C13]
+//@   requires valid(left) && valid(right)
+//@   safe [C08]
+//@   assigns [C13] nothing
+//@   ensures [result C07] boolResult(result, err)
+//@   ensures [int C07] is(left, *value.Integer) && is(right, *value.Integer) && !left.(*value.Integer).Literal && !left.(*value.Integer).IsNAN && !right.(*value.Integer).IsNAN ==> err == nil && BVal(result) == (left.(*value.Integer).Value <= right.(*value.Integer).Value)
+
+//@ func LogicalAnd [C07 C08 C13]
+//@   requires valid(left) && valid(right)
+//@   safe [C08]
+//@   assigns [C13] nothing
+//@   ensures [result C07] boolResult(result, err)
+//@   ensures [bool C07] is(left, *value.Boolean) && is(right, *value.Boolean) ==> err == nil && BVal(result) == (left.(*value.Boolean).Value && right.(*value.Boolean).Value)
+//@   ensures [notset-falsy C07] is(left, *value.String) && !left.(*value.String).Literal && left.(*value.String).IsNotSet && err == nil ==> !BVal(result)
+//@   ensures [notset-falsy-right C07] is(right, *value.String) && !right.(*value.String).Literal && right.(*value.String).IsNotSet && err == nil ==> !BVal(result)
+//@   ensures [string-truthy C07] is(left, *value.String) && !left.(*value.String).Literal && is(right, *value.Boolean) ==> err == nil && BVal(result) == (!left.(*value.String).IsNotSet && right.(*value.Boolean).Value)
+
+//@ func LogicalOr [C07 C08 C13]
+//@   requires valid(left) && valid(right)
+//@   safe [C08]
+//@   assigns [C13] nothing
+//@   ensures [result C07] boolResult(result, err)
+//@   ensures [bool C07] is(left, *value.Boolean) && is(right, *value.Boolean) ==> err == nil && BVal(result) == (left.(*value.Boolean).Value || right.(*value.Boolean).Value)
+//@   ensures [notset-falsy C07] is(left, *value.String) && !left.(*value.String).Literal && left.(*value.String).IsNotSet && is(right, *value.Boolean) ==> err == nil && BVal(result) == right.(*value.Boolean).Value
+
+//@ func Concat [C07 C08 C13]
+//@   requires valid(left) && valid(right)
+//@   safe [C08]
+//@   assigns [C13] nothing
+//@   ensures [result C07] err == nil ==> is(result, *value.String) && nonnil(ref(result)) && fresh(result) && !result.(*value.String).IsNotSet
+//@   ensures [strings C07] is(left, *value.String) && is(right, *value.String) ==> err == nil
+
+//@ func TimeCalculation [C08 C13]
+//@   requires valid(left) && valid(right)
+//@   safe [C08]
+//@   assigns [C13] nothing
+
+//@ func Regex [C07 C08]
+//@   requires valid(left) && valid(right) && ctx != nil
+//@   safe [C08]
+//@   ensures [result C07] boolResult(result, err)
+//@   loop 1 invariant ctx.RegexMatchedValues != nil
+//@   loop 2 invariant ctx.RegexMatchedValues != nil
+
+//@ func NotRegex [C08]
+//@   requires valid(left) && valid(right) && ctx != nil
+//@   safe [C08]
+
+// ---- lemmas (C07 duality laws) -----------------------------------------------------------------
+
+// @ lemma lemma_not_equal [C07]
+// @   requires valid(a) && valid(b)
+// @   inline-calls
+// @   ensures [negation] e1 == nil && e2 == nil ==> x.(*value.Boolean).Value == !y.(*value.Boolean).Value
+// @   ensures [same-definedness] (e1 == nil) == (e2 == nil)
+func lemma_not_equal(a, b value.Value) (x, y value.Value, e1, e2 error) {
+	x, e1 = Equal(a, b)
+	y, e2 = NotEqual(a, b)
+	return
+}
+
+// @ lemma lemma_lt_gt [C07]
+// @   requires valid(a) && valid(b) && !(is(a, *value.Time) && is(b, *value.Time))
+// @   inline-calls
+// @   ensures [duality] e1 == nil && e2 == nil ==> x.(*value.Boolean).Value == y.(*value.Boolean).Value
+func lemma_lt_gt(a, b value.Value) (x, y value.Value, e1, e2 error) {
+	x, e1 = LessThan(a, b)
+	y, e2 = GreaterThan(b, a)
+	return
+}
+
+// @ lemma lemma_le_ge [C07]
+// @   requires valid(a) && valid(b) && !(is(a, *value.Time) && is(b, *value.Time))
+// @   inline-calls
+// @   ensures [duality] e1 == nil && e2 == nil ==> x.(*value.Boolean).Value == y.(*value.Boolean).Value
+func lemma_le_ge(a, b value.Value) (x, y value.Value, e1, e2 error) {
+	x, e1 = LessThanEqual(a, b)
+	y, e2 = GreaterThanEqual(b, a)
+	return
+}
+
+// @ lemma lemma_lt_not_ge [C07]
+// @   requires valid(a) && valid(b) && is(a, *value.Integer) && is(b, *value.Integer) && !a.(*value.Integer).IsNAN && !b.(*value.Integer).IsNAN
+// @   inline-calls
+// @   ensures [trichotomy] e1 == nil && e2 == nil ==> x.(*value.Boolean).Value == !y.(*value.Boolean).Value
+func lemma_lt_not_ge(a, b value.Value) (x, y value.Value, e1, e2 error) {
+	x, e1 = LessThan(a, b)
+	y, e2 = GreaterThanEqual(a, b)
+	return
+}
